@@ -544,6 +544,9 @@ def rungekutta4(m: Model, d: Data):
   qpos_t0 = wp.clone(d.qpos)
   qvel_t0 = wp.clone(d.qvel)
   time_t0 = wp.clone(d.time)
+  # the stage evaluations below call forward(), which recomputes the sensors; MuJoCo C evaluates the stages
+  # with skipsensor=1, so after the step sensordata is still that of the forward pass at t0
+  sensordata_t0 = wp.clone(d.sensordata)
   qvel_rk = wp.zeros((d.nworld, m.nv), dtype=float)
   qacc_rk = wp.zeros((d.nworld, m.nv), dtype=float)
 
@@ -567,6 +570,7 @@ def rungekutta4(m: Model, d: Data):
   wp.copy(d.qpos, qpos_t0)
   wp.copy(d.qvel, qvel_t0)
   wp.copy(d.time, time_t0)
+  wp.copy(d.sensordata, sensordata_t0)
 
   if m.na:
     wp.copy(d.act, act_t0)
